@@ -576,6 +576,15 @@ func (e *SpecEnv) call(n SCall) *Val {
 		}
 		prefix, ft := pathPrefix(t, path)
 		fl := flatten(ft)
+		if len(fl) == 2 && classify(ft) == VBig {
+			// math.Int / sdk.Dec: the number column (the nil flag is the other leaf)
+			for _, l := range fl {
+				if l.Sort == SInt {
+					fl = []Leaf{l}
+					break
+				}
+			}
+		}
 		if len(fl) != 1 {
 			sfail("heapOf: field %s is not a scalar", fs.S)
 		}
